@@ -39,7 +39,7 @@ def exc_name(e):
 # ---------------------------------------------------------------------------------------------
 # WCS families
 # ---------------------------------------------------------------------------------------------
-def family_wcs(kind, nd, shape=None):
+def family_wcs(kind, nd, shape=None, unset=False):
     """WCS of a named family with nd pixel axes (pixel order = reverse array order)."""
     from astropy.wcs import WCS
     if kind == "lin":
@@ -78,7 +78,8 @@ def family_wcs(kind, nd, shape=None):
     w.wcs.crpix = [2, 1, 1, 1][:nd]
     w.wcs.crval = [0, 0, 10, 0][:nd] if kind != "tan_split" else ([0, 10, 0][:nd - 1] + [0])
     w.wcs.dateref = "2020-01-01T00:00:00"
-    w.wcs.set()
+    if not unset:              # an unset FITS WCS still reports its units as given (arcsec), not as it evaluates (deg)
+        w.wcs.set()
     return w
 
 
